@@ -227,6 +227,28 @@ func genDeliveryScenario(g *prng.R) (*sim.Scenario, M) {
 	act := M{"type": pick(g, "Listen", "Announce", "Offer", "Read", "Follow"), "actor": alice(), "object": R1 + "/things/1"}
 	pool := append(append([]string{}, actors...), cols...)
 	pool = append(pool, alice(), bob(), Public, "as:Public", R1+"/users/nowhere")
+	// one scenario in six: the application has a stored inbox for every
+	// addressed actor (nothing is left to dereference), the sender included
+	memberOf0 := map[string]bool{}
+	for _, c := range cols {
+		if r, ok := sc.Remote[c]; ok && r.Doc != nil {
+			d := r.Doc.(M)
+			for _, it := range append(asList(d["items"]), asList(d["orderedItems"])...) {
+				if id, ok := idOfValue(it); ok {
+					memberOf0[id] = true
+				}
+			}
+		}
+	}
+	allStored := g.Chance(1, 6)
+	if allStored {
+		pool = []string{alice(), alice(), bob(), Public, "as:Public"}
+		for _, a := range actors {
+			if !memberOf0[a] {
+				pool = append(pool, a)
+			}
+		}
+	}
 	sc.StoredInbox = map[string]string{}
 	addressed := map[string]bool{}
 	for _, k := range []string{"to", "bto", "cc", "bcc", "audience"} {
@@ -250,35 +272,11 @@ func genDeliveryScenario(g *prng.R) (*sim.Scenario, M) {
 			act[k] = vals
 		}
 	}
-	// application-stored inboxes: only for addressed actors that are never
-	// collection members (the statement leaves members open), never the sender
-	memberOf := map[string]bool{}
-	for _, c := range cols {
-		if r, ok := sc.Remote[c]; ok && r.Doc != nil {
-			d := r.Doc.(M)
-			for _, it := range append(asList(d["items"]), asList(d["orderedItems"])...) {
-				if id, ok := idOfValue(it); ok {
-					memberOf[id] = true
-				}
-			}
-		}
+	// (application-stored inboxes are chosen by the caller, from the final
+	// addressing)
+	if allStored {
+		sc.Name = "all-stored"
 	}
-	for ref := range addressed {
-		if isPublic(ref) || ref == alice() || memberOf[ref] {
-			continue
-		}
-		isCol := false
-		for _, c := range cols {
-			if c == ref {
-				isCol = true
-			}
-		}
-		if !isCol && g.Chance(1, 3) {
-			sc.StoredInbox[ref] = ref + "/stored-inbox"
-		}
-	}
-	// sort map iteration effects away: StoredInbox choice above iterates a map,
-	// so derive it deterministically instead
 	return sc, act
 }
 
@@ -373,11 +371,26 @@ func init() {
 			jobs = append(jobs, func() {
 				g := prng.New(r.SeedV, "c02", i)
 				sc, act := genDeliveryScenario(g)
+				allStored := sc.Name == "all-stored"
 				// deterministic stored-inbox choice (map iteration above is not)
 				sc.StoredInbox = map[string]string{}
 				g2 := prng.New(r.SeedV, "c02.stored", i)
 				for _, ref := range sortedCopy(uniq(sortedCopy(recipientIDs(act)))) {
-					if isPublic(ref) || ref == alice() {
+					if isPublic(ref) {
+						continue
+					}
+					if ref == alice() {
+						// the sender's stored inbox is its inbox: whichever
+						// source the library takes "the sending actor's own
+						// inbox" from, it is this one
+						if allStored || g2.Bool() {
+							sc.StoredInbox[ref] = aliceIn()
+						}
+						continue
+					}
+					if allStored {
+						// nothing is left to dereference
+						sc.StoredInbox[ref] = ref + "/stored-inbox"
 						continue
 					}
 					if _, isCol := sc.Remote[ref]; isCol {
